@@ -15,6 +15,8 @@ pub static SENT: Mutex<Vec<Sent>> = Mutex::new(Vec::new());
 pub static ACKS: Mutex<Vec<Option<tokio::sync::oneshot::Sender<Bytes>>>> = Mutex::new(Vec::new());
 /// frames written back to the peer through `Writer` (ACKs / replies of a MessageHandler)
 pub static REPLIES: Mutex<Vec<Bytes>> = Mutex::new(Vec::new());
+/// true: every reliable send is acknowledged at once (the returned handle is already resolved with "Ack")
+pub static AUTO_ACK: Mutex<bool> = Mutex::new(false);
 pub type CancelHandler = tokio::sync::oneshot::Receiver<Bytes>;
 pub struct Writer;
 impl futures::sink::Sink<Bytes> for Writer {
@@ -69,7 +71,11 @@ impl ReliableSender {
     pub async fn send(&mut self, address: SocketAddr, data: Bytes) -> CancelHandler {
         SENT.lock().unwrap().push(Sent { to: address, data, reliable: true });
         let (tx, rx) = tokio::sync::oneshot::channel();
-        ACKS.lock().unwrap().push(Some(tx));
+        if *AUTO_ACK.lock().unwrap() {
+            let _ = tx.send(Bytes::from("Ack"));
+        } else {
+            ACKS.lock().unwrap().push(Some(tx));
+        }
         rx
     }
     pub async fn broadcast(&mut self, addresses: Vec<SocketAddr>, data: Bytes) -> Vec<CancelHandler> {
